@@ -16,6 +16,7 @@ import (
 	"io/ioutil"
 	"net/http"
 	"net/http/httptest"
+	"os"
 	"sort"
 	"sync"
 	"time"
@@ -31,7 +32,6 @@ import (
 	"github.com/gauss-project/aurorafs/pkg/logging"
 	"github.com/gauss-project/aurorafs/pkg/netstore"
 	"github.com/gauss-project/aurorafs/pkg/p2p"
-	"github.com/gauss-project/aurorafs/pkg/p2p/streamtest"
 	"github.com/gauss-project/aurorafs/pkg/pinning"
 	"github.com/gauss-project/aurorafs/pkg/routetab"
 	"github.com/gauss-project/aurorafs/pkg/rpc"
@@ -80,22 +80,23 @@ type streamer struct {
 	ps   *peerSet
 }
 
-func (s *streamer) rec(addr boson.Address) (*streamtest.Recorder, error) {
+func (s *streamer) NewStream(ctx context.Context, addr boson.Address, h p2p.Headers, protocol, version, stream string) (p2p.Stream, error) {
 	s.ps.mu.Lock()
 	n := s.ps.nodes[addr.String()]
 	s.ps.mu.Unlock()
 	if n == nil {
 		return nil, fmt.Errorf("nodelite: no such peer %s", addr)
 	}
-	return streamtest.New(streamtest.WithProtocols(n.CI.Protocol()), streamtest.WithBaseAddr(s.self)), nil
-}
-
-func (s *streamer) NewStream(ctx context.Context, addr boson.Address, h p2p.Headers, protocol, version, stream string) (p2p.Stream, error) {
-	r, err := s.rec(addr)
-	if err != nil {
-		return nil, err
+	spec := n.CI.Protocol()
+	if spec.Name != protocol || spec.Version != version {
+		return nil, fmt.Errorf("nodelite: protocol %s/%s not served", protocol, version)
 	}
-	return r.NewStream(ctx, addr, h, protocol, version, stream)
+	for _, ss := range spec.StreamSpecs {
+		if ss.Name == stream {
+			return openStream(s.self, ss.Handler), nil
+		}
+	}
+	return nil, fmt.Errorf("nodelite: stream %s not served", stream)
 }
 
 func (s *streamer) NewRelayStream(ctx context.Context, addr boson.Address, h p2p.Headers, protocol, version, stream string, midCall bool) (p2p.Stream, error) {
@@ -159,6 +160,8 @@ type PutRecord struct {
 	Root string
 	Addr string
 	Data []byte
+	// Existed is the store's answer: the chunk was already stored, this put wrote nothing.
+	Existed bool
 }
 
 // Recorder wraps the local store and records every Put.
@@ -170,15 +173,17 @@ type Recorder struct {
 }
 
 func (r *Recorder) Put(ctx context.Context, mode storage.ModePut, chs ...boson.Chunk) ([]bool, error) {
+	exist, err := r.Storer.Put(ctx, mode, chs...)
 	r.mu.Lock()
 	if r.on {
 		root := sctx.GetRootHash(ctx)
-		for _, c := range chs {
-			r.Puts = append(r.Puts, PutRecord{Mode: mode, Root: root.String(), Addr: c.Address().String(), Data: append([]byte(nil), c.Data()...)})
+		for i, c := range chs {
+			r.Puts = append(r.Puts, PutRecord{Mode: mode, Root: root.String(), Addr: c.Address().String(), Data: append([]byte(nil), c.Data()...),
+				Existed: err == nil && i < len(exist) && exist[i]})
 		}
 	}
 	r.mu.Unlock()
-	return r.Storer.Put(ctx, mode, chs...)
+	return exist, err
 }
 
 // Start begins recording (clearing previous records); Stop returns them.
@@ -198,7 +203,7 @@ type Options struct {
 // NewNode builds a node with a fresh backing store and state store.
 func (nt *Net) NewNode(addr boson.Address, o Options) (*Node, error) {
 	back, dsn := faultdrv.New()
-	logger := logging.New(ioutil.Discard, 0)
+	logger := newLogger()
 	st, err := leveldb.NewInMemoryStateStore(logger)
 	if err != nil {
 		return nil, err
@@ -462,4 +467,11 @@ func (n *Node) GCRun(capacity uint64) (total uint64, err error) {
 		}
 	}
 	return total, errors.New("gc did not finish in 64 runs")
+}
+
+func newLogger() logging.Logger {
+	if os.Getenv("NODELITE_LOG") != "" {
+		return logging.New(os.Stderr, 6)
+	}
+	return logging.New(ioutil.Discard, 0)
 }
